@@ -726,10 +726,23 @@ func (p *Prog) flagFacts(f *Func, c *Cond, val bool, depth int, historical bool)
 	}
 	// the value tested is the one that reaches the test: a copy of another local stands for that local
 	use := id
+	var sibs []flagSibling
 	for i := 0; i < 3; i++ {
 		d, okD := p.reachingDef(f, use, v)
 		if !okD || d.Rhs == nil {
 			break
+		}
+		// "value, err = tmp0, tmp1": what is learnt about err's temporary says something about value's
+		if as, isAs := d.Node.(*ast.AssignStmt); isAs && i == 0 && len(as.Lhs) == len(as.Rhs) && len(as.Lhs) > 1 {
+			for j, l := range as.Lhs {
+				lid, okL := unparen(l).(*ast.Ident)
+				rid, okR := unparen(as.Rhs[j]).(*ast.Ident)
+				if okL && okR && p.ObjOf(lid) != types.Object(v) && lid.Name != "_" {
+					if w, isVar := p.ObjOf(rid).(*types.Var); isVar && !w.IsField() {
+						sibs = append(sibs, flagSibling{lid, w})
+					}
+				}
+			}
 		}
 		rid, isID := unparen(d.Rhs).(*ast.Ident)
 		if !isID {
@@ -741,12 +754,12 @@ func (p *Prog) flagFacts(f *Func, c *Cond, val bool, depth int, historical bool)
 		}
 		v, use = w, rid
 	}
-	return p.flagClassFacts(f, v, class, depth, map[types.Object]bool{}, historical)
+	return p.flagClassFacts(f, v, class, depth, map[types.Object]bool{}, historical, sibs)
 }
 
 // historical: the facts are reported as "this test was passed on the way here" (what the structural
 // dominance queries mean); otherwise only facts that still hold (over single-assignment locals) are carried.
-func (p *Prog) flagClassFacts(f *Func, v *types.Var, class string, depth int, seen map[types.Object]bool, historical bool) []Fact {
+func (p *Prog) flagClassFacts(f *Func, v *types.Var, class string, depth int, seen map[types.Object]bool, historical bool, sibs []flagSibling) []Fact {
 	if v == nil || seen[v] || v.IsField() || v.Pkg() == nil || v.Parent() == v.Pkg().Scope() || depth > 3 {
 		return nil
 	}
@@ -807,6 +820,9 @@ func (p *Prog) flagClassFacts(f *Func, v *types.Var, class string, depth int, se
 			}
 			if p.isNilExpr(rhs) {
 				got = "nil"
+			}
+			if got == "" && p.isSentinelError(rhs) {
+				got = "nonnil"
 			}
 			if got == "" {
 				// an expression known to be non-nil (or nil) where it is assigned
@@ -895,7 +911,7 @@ func (p *Prog) flagClassFacts(f *Func, v *types.Var, class string, depth int, se
 		if nDefs != 1 || len(copies) != 1 || len(sites) != 0 {
 			return nil
 		}
-		return p.flagClassFacts(f, copies[0], class, depth+1, seen, historical)
+		return p.flagClassFacts(f, copies[0], class, depth+1, seen, historical, sibs)
 	}
 	if len(sites) == 0 {
 		return nil
@@ -924,6 +940,69 @@ func (p *Prog) flagClassFacts(f *Func, v *types.Var, class string, depth int, se
 			}
 		}
 		return true
+	}
+	// variables set together with the flag ("tmp0, tmp1 = v, nil"): if they are nil / non-nil at every site of
+	// this class, the variable that receives their value is, too
+	var sibFacts []Fact
+	for _, sb := range sibs {
+		cls := ""
+		okS := true
+		for _, st := range sites {
+			as, isAs := st.n.(*ast.AssignStmt)
+			if !isAs || len(as.Lhs) != len(as.Rhs) {
+				okS = false
+				break
+			}
+			var rhs ast.Expr
+			for k, l := range as.Lhs {
+				if lid, okL := unparen(l).(*ast.Ident); okL && p.ObjOf(lid) == types.Object(sb.tmp) {
+					rhs = unparen(as.Rhs[k])
+				}
+			}
+			if rhs == nil {
+				okS = false
+				break
+			}
+			c := ""
+			switch x := rhs.(type) {
+			case *ast.UnaryExpr:
+				if x.Op == token.AND {
+					c = "nonnil"
+				}
+			case *ast.CompositeLit:
+				c = "nonnil"
+			}
+			if p.isNilExpr(rhs) {
+				c = "nil"
+			}
+			if c == "" && p.isSentinelError(rhs) {
+				c = "nonnil"
+			}
+			if c == "" {
+				for _, d := range p.dominatingFactListDepth(st.fn, st.n, depth+1) {
+					if d.Op == "==" && d.Y != nil && p.isNilExpr(d.Y) && p.Canon(d.X) == p.Canon(rhs) {
+						c = "nonnil"
+						if d.Val {
+							c = "nil"
+						}
+					}
+				}
+			}
+			if c == "" || (cls != "" && cls != c) {
+				okS = false
+				break
+			}
+			cls = c
+		}
+		if okS && cls != "" {
+			switch sb.lhs.Name {
+			case "_":
+			default:
+				if _, isPtrLike := p.TypeOf(sb.lhs).Underlying().(*types.Basic); !isPtrLike {
+					sibFacts = append(sibFacts, p.eqFact(sb.lhs, p.nilIdent(), cls == "nil"))
+				}
+			}
+		}
 	}
 	var common map[string]Fact
 	for _, s := range sites {
@@ -954,7 +1033,23 @@ func (p *Prog) flagClassFacts(f *Func, v *types.Var, class string, depth int, se
 	for _, k := range keys {
 		out = append(out, common[k])
 	}
+	out = append(out, sibFacts...)
 	return out
+}
+
+// flagSibling: lhs receives the value of tmp in the parallel assignment that also defines the tested flag.
+type flagSibling struct {
+	lhs *ast.Ident
+	tmp *types.Var
+}
+
+// nilIdent: a synthetic identifier denoting nil (for facts that are derived, not read from a condition).
+func (p *Prog) nilIdent() *ast.Ident {
+	if p.synthNil == nil {
+		p.synthNil = &ast.Ident{Name: "nil"}
+		p.Info.Uses[p.synthNil] = types.Universe.Lookup("nil")
+	}
+	return p.synthNil
 }
 
 func (p *Prog) dominatingFactListDepth(f *Func, n ast.Node, depth int) []Fact {
@@ -1108,4 +1203,24 @@ func (p *Prog) Deref(f *Func, e ast.Expr) ast.Expr {
 		e = d.Rhs
 	}
 	return e
+}
+
+// isSentinelError: e names a package-level error variable (ErrClosed, io.EOF, ...). Such variables are
+// initialised with errors.New / fmt.Errorf and never nil; assigning one makes an error local non-nil.
+func (p *Prog) isSentinelError(e ast.Expr) bool {
+	e = unparen(e)
+	var id *ast.Ident
+	switch x := e.(type) {
+	case *ast.Ident:
+		id = x
+	case *ast.SelectorExpr:
+		id = x.Sel
+	default:
+		return false
+	}
+	v, ok := p.ObjOf(id).(*types.Var)
+	if !ok || v.IsField() || v.Pkg() == nil || v.Parent() != v.Pkg().Scope() {
+		return false
+	}
+	return isErrType(v.Type())
 }
